@@ -353,7 +353,7 @@ def _spawn(spec: Dict[str, Any]) -> subprocess.Popen:
     env.setdefault("OPENBLAS_NUM_THREADS", "1")
     err = open(spec["out"] + ".stderr", "wb")
     return subprocess.Popen([sys.executable, "-m", "vfw.shard", json.dumps(spec)], cwd=ROOT, env=env,
-                            stdout=subprocess.DEVNULL, stderr=err)
+                            stdout=err, stderr=err)
 
 
 def replay_entry(mod, check_name: Optional[str], case, known=()):
